@@ -50,7 +50,7 @@ func StartChild(prop, kind, cfgText string, env ...string) (*Child, error) {
 	}
 	vn := "vnode"
 	if os.Getenv("VERIF_REPO") != "" {
-		vn = "vnode-alt"
+		vn = "vnode-alt-" + strings.ToLower(prop)
 	}
 	c.Cmd = exec.Command(filepath.Join(Root(), ".bin", vn), kind, cfg)
 	c.Cmd.Stdout, c.Cmd.Stderr = outF, errF
